@@ -33,12 +33,12 @@ type Type struct {
 	Val  *Type  // map value
 }
 
-func Simple(n string) Type           { return Type{Kind: "simple", Name: n} }
-func ArrayOf(t Type) Type            { return Type{Kind: "array", Elem: &t} }
-func LongArrayOf(t Type) Type        { return Type{Kind: "array", Elem: &t, Long: true} }
-func MapOf(k string, v Type) Type    { return Type{Kind: "map", Key: k, Val: &v} }
-func (t Type) IsSimple() bool        { return t.Kind == "simple" }
-func (t Type) IsPrim() bool          { return t.Kind == "simple" && IsPrimitive(t.Name) }
+func Simple(n string) Type        { return Type{Kind: "simple", Name: n} }
+func ArrayOf(t Type) Type         { return Type{Kind: "array", Elem: &t} }
+func LongArrayOf(t Type) Type     { return Type{Kind: "array", Elem: &t, Long: true} }
+func MapOf(k string, v Type) Type { return Type{Kind: "map", Key: k, Val: &v} }
+func (t Type) IsSimple() bool     { return t.Kind == "simple" }
+func (t Type) IsPrim() bool       { return t.Kind == "simple" && IsPrimitive(t.Name) }
 
 // String is the canonical (layout-free) spelling used in keys and reports.
 func (t Type) String() string {
@@ -101,7 +101,7 @@ type Field struct {
 	Deprecated bool
 	DepMsg     string
 	Docs       []Doc
-	Tags       []Tag // rendered as //[tag(...)] doc lines after Docs
+	Tags       []Tag  // rendered as //[tag(...)] doc lines after Docs
 	Trailing   string // trailing "// text" after the ';' (belongs to nothing)
 }
 
